@@ -155,7 +155,7 @@ if __name__ == '__main__':
     if run['result']:
         print(json.dumps(run['result']['verification-results']))
     tab = function_table(run)
-    bad = sorted(k for k, v in tab.items() if not v['success'] and '__nec_' not in k and 'canary' not in k)
+    bad = sorted(k for k, v in tab.items() if not v['success'] and '__nec_' not in k and '__ref_' not in k and 'canary' not in k)
     print('functions:', len(tab), 'failing:', len(bad))
     for b in bad:
         print('  FAIL', b)
